@@ -199,6 +199,7 @@ def loadReadonly (db : DB) (fastOpt : Bool) (skew : Nat) : Option (Handle × Ver
 
 inductive Ensure
   | noop | rebuild | ahead
+  deriving DecidableEq
 
 /-- the decision of `ensureFastIndex`. -/
 def ensureDecision (db : DB) (h : Handle) : Ensure :=
